@@ -11,6 +11,7 @@ import (
 	"time"
 
 	"github.com/gebn/bmc"
+	"github.com/gebn/bmc/pkg/dcmi"
 	"github.com/gebn/bmc/pkg/ipmi"
 	"github.com/prometheus/client_golang/prometheus"
 	"pgregory.net/rapid"
@@ -154,6 +155,7 @@ func TestMetrics(t *testing.T) {
 				cr.Seed = rapid.Uint64().Draw(t, "seed")
 				w := hx.NewWorldFor(cr, true)
 				w.BMC.SuiteRecords = append((&ref.SuiteRecord{ID: 17, Auth: 3, Integs: []byte{4}, Confs: []byte{1}}).Bytes(), (&ref.SuiteRecord{ID: 3, Auth: 1, Integs: []byte{1}, Confs: []byte{1}}).Bytes()...)
+				installCaps(w.BMC)
 				c := &connState{w: w, b: w.BMC, t: w.T, sc: &hx.Scripter{}}
 				c.sc.Install(w.BMC)
 				conns = append(conns, c)
@@ -166,6 +168,7 @@ func TestMetrics(t *testing.T) {
 				udpCount++
 				b := simbmc.New(rapid.Uint64().Draw(t, "seed"))
 				creds.Install(b)
+				installCaps(b)
 				srv, err := udpnet.Listen(b)
 				if err != nil {
 					t.Skip("cannot listen")
@@ -330,12 +333,32 @@ func TestMetrics(t *testing.T) {
 				if c.udp && (kind == "retried" || kind == "expiry") {
 					kind = "success" // real back-off would cost seconds per case
 				}
+				// a spread of command names, including the five DCMI capability
+				// commands, which share one operation (NetFn, body, command) but
+				// are distinct commands by name
 				var cmd ipmi.Command
-				hasBody := rapid.Bool().Draw(t, "hasBody")
-				if hasBody {
+				hasBody := true
+				switch rapid.IntRange(0, 9).Draw(t, "command") {
+				case 0:
 					cmd = &ipmi.GetDeviceIDCmd{}
-				} else {
-					cmd = &ipmi.ChassisControlCmd{Req: ipmi.ChassisControlReq{ChassisControl: ipmi.ChassisControlPowerOn}}
+				case 1:
+					cmd, hasBody = &ipmi.ChassisControlCmd{Req: ipmi.ChassisControlReq{ChassisControl: ipmi.ChassisControlPowerOn}}, false
+				case 2:
+					cmd = &ipmi.GetSystemGUIDCmd{}
+				case 3:
+					cmd = &ipmi.GetChassisStatusCmd{}
+				case 4:
+					cmd = dcmi.NewGetDCMICapabilitiesInfoSupportedCapabilitiesCmd()
+				case 5:
+					cmd = dcmi.NewGetDCMICapabilitiesInfoMandatoryPlatformAttrsCmd()
+				case 6:
+					cmd = dcmi.NewGetDCMICapabilitiesInfoOptionalPlatformAttrsCmd()
+				case 7:
+					cmd = dcmi.NewGetDCMICapabilitiesInfoManageabilityAccessAttrsCmd()
+				case 8:
+					cmd = dcmi.NewGetDCMICapabilitiesInfoEnhancedSystemPowerStatisticsAttrsCmd()
+				default:
+					cmd = &dcmi.GetPowerReadingCmd{Req: dcmi.GetPowerReadingReq{Mode: dcmi.SystemPowerStatisticsModeNormal}}
 				}
 				var script []hx.Outcome
 				switch kind {
@@ -416,6 +439,11 @@ func TestMetrics(t *testing.T) {
 		}
 		ev.Sample(map[string]any{"history": hist, "failures": failures, "retries": retries})
 	})
+}
+
+// installCaps gives the BMC valid DCMI capability data for all five parameters.
+func installCaps(b *simbmc.BMC) {
+	b.Data.DCMICaps = map[byte][]byte{1: {1, 5, 2, 0, 1, 7}, 2: {1, 5, 2, 0x80, 1, 0, 0, 5}, 3: {1, 5, 2, 0x20, 0x12}, 4: {1, 5, 2, 1, 0xff, 0xff}, 5: {1, 5, 2, 2, 0x45, 0x81}}
 }
 
 func TestCoverage(t *testing.T) {
